@@ -1,29 +1,53 @@
 #!/usr/bin/env python3
 """Regression over the kept seeded changes (developer tool, not a registered check): for every /verif/seeded/<name>/ apply
-patch.diff to /repo's working tree, run the checks named in meta.json:detected_by, expect exit 1 and the rule id in the
-output, undo with git checkout.  usage: tools/seedcheck.py [name-substring]"""
-import sys, os, json, subprocess
+patch.diff to a scratch worktree of /repo's HEAD, run the checks named in meta.json:detected_by there (VERIF_REPO), expect
+exit 1 and the rule id in the output.  usage: tools/seedcheck.py [-j N] [name-substring]
+Uses N scratch worktrees under $TMPDIR (removed at the end); evidence of these runs goes to a scratch directory."""
+import sys, os, json, subprocess, tempfile, shutil
+from concurrent.futures import ThreadPoolExecutor
+import queue
 V = os.path.dirname(os.path.dirname(os.path.abspath(__file__)))
-sel = sys.argv[1] if len(sys.argv) > 1 else ''
-assert subprocess.run(['git', '-C', '/repo', 'status', '--porcelain', '--untracked-files=no'], capture_output=True, text=True).stdout.strip() == '', '/repo not clean'
-bad = 0
-for name in sorted(os.listdir(os.path.join(V, 'seeded'))):
+args = sys.argv[1:]
+J = 6
+if args and args[0] == '-j':
+    J = int(args[1]); args = args[2:]
+sel = args[0] if args else ''
+base = tempfile.mkdtemp(prefix='seedcheck-')
+wts = queue.Queue()
+for i in range(J):
+    w = os.path.join(base, 'w%d' % i)
+    subprocess.run(['git', '-C', '/repo', 'worktree', 'add', '-q', '--detach', w, 'HEAD'], check=True)
+    wts.put(w)
+def one(name):
     d = os.path.join(V, 'seeded', name)
-    if sel not in name or not os.path.exists(os.path.join(d, 'meta.json')):
-        continue
     meta = json.load(open(os.path.join(d, 'meta.json')))
-    if subprocess.run(['git', '-C', '/repo', 'apply', os.path.join(d, 'patch.diff')]).returncode != 0:
-        print(name, 'PATCH DOES NOT APPLY'); bad += 1; continue
+    w = wts.get()
+    out, bad = [], 0
     try:
+        if subprocess.run(['git', '-C', w, 'apply', os.path.join(d, 'patch.diff')], capture_output=True).returncode != 0:
+            return ['%s PATCH DOES NOT APPLY' % name], 1
         if not meta['detected_by']:
-            print(name, 'not claimed (documented miss)')
+            out.append('%s not claimed (documented miss)' % name)
+        env = dict(os.environ, VERIF_REPO=w, VERIF_EVIDENCE_DIR=os.path.join(w, '.ev'))
         for det in meta['detected_by']:
             prop, rule = det.split(':')
-            r = subprocess.run([sys.executable, os.path.join(V, 'check.py'), prop, '--no-fixtures'], capture_output=True, text=True)
+            r = subprocess.run([sys.executable, os.path.join(V, 'check.py'), prop, '--no-fixtures'], capture_output=True, text=True, env=env)
             ok = r.returncode == 1 and ('  ' + rule + ' ') in r.stdout and 'VIOLATION property=' + prop in r.stdout
-            print(name, det, 'CAUGHT' if ok else 'MISSED (exit %d)' % r.returncode)
+            out.append('%s %s %s' % (name, det, 'CAUGHT' if ok else 'MISSED (exit %d)' % r.returncode))
             bad += 0 if ok else 1
     finally:
-        subprocess.run(['git', '-C', '/repo', 'checkout', '--', '.'])
-print('%d problems' % bad)
+        subprocess.run(['git', '-C', w, 'checkout', '--', '.'])
+        wts.put(w)
+    return out, bad
+names = [n for n in sorted(os.listdir(os.path.join(V, 'seeded'))) if sel in n and os.path.exists(os.path.join(V, 'seeded', n, 'meta.json'))]
+bad = 0
+try:
+    with ThreadPoolExecutor(J) as ex:
+        for out, b in ex.map(one, names):
+            print('\n'.join(out), flush=True); bad += b
+finally:
+    while not wts.empty():
+        subprocess.run(['git', '-C', '/repo', 'worktree', 'remove', '--force', wts.get()])
+    shutil.rmtree(base, ignore_errors=True)
+print('%d problems over %d seeds' % (bad, len(names)))
 sys.exit(1 if bad else 0)
